@@ -1,7 +1,13 @@
 package main
 
 import (
+	"context"
 	"fmt"
+	"github.com/fullstorydev/grpchan/inprocgrpc"
+	"google.golang.org/grpc"
+	"runtime"
+	"sync/atomic"
+	"time"
 
 	"verifharness/hx"
 )
@@ -212,12 +218,29 @@ func init() {
 				{{actor: "H", kind: "HSendHeader", md: []int64{2}}, H("HSend", 101), H("HSend", 102), CR("CHeader"), H("HSend", 103), CR("CHeader")},
 			})
 		}
+		// written-out schedules: a client send is blocked on the full request buffer when the handler returns with
+		// more closing frames than the response buffer holds (headers, trailers, status) and nobody receives: the
+		// blocked send is released AT the return, not when the client at last makes room
+		{
+			H := func(k string, x int64) sOp { return sOp{actor: "H", kind: k, x: x} }
+			CS := func(x int64) sOp { return sOp{actor: "CS", kind: "CSend", x: x} }
+			CR := sOp{actor: "CR", kind: "CRecv"}
+			hdr := sOp{actor: "H", kind: "HSetHeader", md: []int64{1}}
+			tlr := sOp{actor: "H", kind: "HSetTrailer", md: []int64{2}}
+			runFixedSchedules(o, "return_releases_blocked_send", []string{"BD", "CS"}, [][]sOp{
+				{CS(1), CS(2), tlr, H("HReturn", 5), CR, CR, CR},
+				{CS(1), CS(2), hdr, tlr, H("HReturn", 0), CR, CR, CR},
+				{CS(1), CS(2), hdr, tlr, H("HReturn", 9), CS(3), CR, CR, CR, CR},
+				{H("HSend", 101), CS(1), CS(2), tlr, H("HReturn", 5), CR, CR, CR, CR},
+			})
+		}
 		// the same with a receiver that also receives now and then, slower than the sender, and with handler headers
 		runStreamProfile(o, r, profile{name: "header_polling_slow_receiver", rounds: [2]int{8, 16}, cancel: 5, handlerEnd: 5, headers: 30, slowPoll: true, kinds: []string{"BD", "SS"}, returnCodes: []int64{0}}, n/2)
 		// the handler returns while a client send is blocked on the full buffer
 		runStreamProfile(o, r, profile{name: "return_while_send_blocked", rounds: [2]int{5, 10}, cancel: 0, handlerEnd: 70, headers: 10, stall: true, kinds: []string{"BD", "CS"}, returnCodes: []int64{0, 5}}, n/3)
 		// slow receivers: receive now and then while the sender keeps trying
 		runStreamProfile(o, r, profile{name: "slow", rounds: [2]int{6, 16}, cancel: 10, handlerEnd: 10, headers: 50, kinds: []string{"BD", "SS", "CS"}, returnCodes: []int64{0, 5}}, n)
+		abandonedStreams(o)
 		o.Shard = 30
 	}
 	runners["C05"] = func(o *hx.Out, r *hx.Rand, thorough bool) {
@@ -247,5 +270,66 @@ func init() {
 		runC05HTTP(o, r, thorough)
 		o.Check, o.Oracle, o.Finding = "check_c05", "oracle_c05", "finding_case"
 		o.Shard = 30
+	}
+}
+
+//go:noinline
+func openAndAbandon(ch *inprocgrpc.Channel, kind string) error {
+	cs, err := ch.NewStream(context.Background(), hx.StreamDescOf(kind), "/verif.Svc/"+kind)
+	if err != nil {
+		return err
+	}
+	cs.SendMsg(&hx.Msg{})
+	cs.CloseSend()
+	return nil // cs goes out of scope: the receiver is gone for good
+}
+
+// abandonedStreams: "blocks until the context ends": a caller on a context that never ends opens a stream,
+// stops using it and drops it; the handler, one message ahead and parked in SendMsg, holds the buffered
+// message, the pending one and its goroutine until the stream's own context ends -- which the runtime does
+// for a dropped in-process stream.  The parked send must then return (an error), having completed no more
+// sends than the buffer holds.
+func abandonedStreams(o *hx.Out) {
+	for id, kind := range []string{"SS", "BD"} {
+		var completed int32
+		sendEnded := make(chan error, 1)
+		ch := &inprocgrpc.Channel{}
+		ch.RegisterService(hx.Desc(hx.SvcName), &hx.Svc{Stream: func(k string, ss grpc.ServerStream) error {
+			ss.RecvMsg(&hx.Msg{})
+			for {
+				if err := ss.SendMsg(&hx.Msg{Payload: make([]byte, 512)}); err != nil {
+					sendEnded <- err
+					return err
+				}
+				atomic.AddInt32(&completed, 1)
+			}
+		}})
+		err := openAndAbandon(ch, kind)
+		time.Sleep(150 * time.Millisecond)
+		ahead := atomic.LoadInt32(&completed)
+		released, sendErr := false, ""
+		deadline := time.After(4 * time.Second)
+	wait:
+		for err == nil {
+			runtime.GC()
+			select {
+			case e := <-sendEnded:
+				released = true
+				if e != nil {
+					sendErr = e.Error()
+				}
+				break wait
+			case <-deadline:
+				break wait
+			case <-time.After(40 * time.Millisecond):
+			}
+		}
+		ok := err == nil && released && sendErr != "" && ahead <= 1 && atomic.LoadInt32(&completed) == ahead
+		d := map[string]interface{}{"transport": "inprocgrpc", "stream_kind": kind, "scenario": "the caller's context never ends; the stream is dropped unread; the garbage collector runs",
+			"sends_completed_with_no_receiver": ahead, "parked_send_released": released, "parked_send_error": sendErr, "new_stream_error": fmt.Sprint(err)}
+		if !ok {
+			o.Violate("a handler parked in SendMsg on a stream its caller has dropped was not released when the stream's context ended", d, released, true)
+		}
+		goChecked(o, "abandoned_stream_"+kind, 9000+id, ok, d)
 	}
 }
